@@ -25,6 +25,13 @@ fn mode(m: &HashMap<String, String>) -> AccessListMode {
 pub fn run(kind: &str, args: &[String]) {
     let m = kv(args);
     let port: u16 = get(&m, "port", 0);
+    // fault=<worker>:<panic|return>:<ms after start>
+    if let Some(f) = m.get("fault") {
+        let p: Vec<&str> = f.split(':').collect();
+        if p.len() == 3 {
+            aquatic_common::verif_hooks::set_fault(p[0], p[1] == "panic", std::time::Duration::from_millis(p[2].parse().unwrap_or(0)));
+        }
+    }
     let res = match kind {
         "udp" => {
             let mut c = aquatic_udp::config::Config::default();
